@@ -940,8 +940,11 @@ def write_evidence(prop, tier, seed, results, viol, wall):
         "wall_s": round(wall, 1),
         "violations": len(viol),
     }
-    os.makedirs(os.path.join(VERIF, "evidence"), exist_ok=True)
-    with open(os.path.join(VERIF, "evidence", prop + ".json"), "w") as f:
+    # VERIF_EVIDENCE_DIR: runs against scratch trees (seeded changes) must not overwrite
+    # the evidence of the unchanged tree
+    evdir = os.environ.get("VERIF_EVIDENCE_DIR", os.path.join(VERIF, "evidence"))
+    os.makedirs(evdir, exist_ok=True)
+    with open(os.path.join(evdir, prop + ".json"), "w") as f:
         json.dump(ev, f, indent=1)
 
 
